@@ -34,6 +34,15 @@ __all__ = [
     ]
 
 
+def _float64(x):
+    """Return *x* in double precision.
+
+    Powers like ``f**3`` silently overflow for integer arrays (and for
+    single-precision input, where ``2 * h / c**2`` also underflows to zero).
+    """
+    return np.asanyarray(x, dtype=np.float64)[()]
+
+
 def planck(f, T):
     """Calculate black body radiation for given frequency and temperature.
 
@@ -45,6 +54,7 @@ def planck(f, T):
         float or ndarray: Radiances.
 
     """
+    f, T = _float64(f), _float64(T)
     c = constants.speed_of_light
     h = constants.planck
     k = constants.boltzmann
@@ -63,6 +73,7 @@ def planck_wavelength(l, T):
         float or ndarray: Radiances.
 
     """
+    l, T = _float64(l), _float64(T)
     c = constants.speed_of_light
     h = constants.planck
     k = constants.boltzmann
@@ -81,6 +92,7 @@ def planck_wavenumber(n, T):
         float or ndarray: Radiances.
 
     """
+    n, T = _float64(n), _float64(T)
     c = constants.speed_of_light
     h = constants.planck
     k = constants.boltzmann
@@ -102,6 +114,7 @@ def rayleighjeans(f, T):
         float or ndarray: Radiance [W/(m2*Hz*sr)].
 
     """
+    f = _float64(f)
     c = constants.speed_of_light
     k = constants.boltzmann
 
@@ -138,6 +151,7 @@ def radiance2planckTb(f, r):
     Returns:
         float or ndarray: Planck brightness temperature [K].
     """
+    f = _float64(f)
     c = constants.speed_of_light
     k = constants.boltzmann
     h = constants.planck
@@ -155,6 +169,7 @@ def radiance2rayleighjeansTb(f, r):
     Returns:
         float or ndarray: Rayleigh-Jeans brightness temperature [K].
     """
+    f = _float64(f)
     c = constants.speed_of_light
     k = constants.boltzmann
 
@@ -373,6 +388,7 @@ def perfrequency2perwavelength(perhz, f_grid):
         1darray[nf_grid]: Wavelength grid [m]. 
 
     """
+    f_grid = _float64(f_grid)
     c = constants.speed_of_light
     ndim = len(perhz.shape) - 1
     shape = (perhz.shape[0], ) + ndim * (1, )
